@@ -55,6 +55,70 @@ impl<'w> Ctx<'w> {
 
     fn stmt(&mut self, s: &Stmt, n: usize, tail: bool, aliases: &mut BTreeMap<String, Alias>, out: &mut Vec<String>) -> R<()> {
         match s {
+            Stmt::Local(l) if matches!(&l.pat, Pat::Tuple(_)) => {
+                // let (a, b) = <tuple value>;   (also with a match / if initialiser)
+                // Off by default (R2L_TUPLE_LET=1 enables it): the `src_*` proofs follow the shape of the code they
+                // were written against, and the rewrites seen to introduce tuple lets (harmless/refactor-w-r3,
+                // -x-r1) are behaviour-preserving: leaving the subset keeps them on the correspondence tie
+                // instead of breaking a proof that could not be re-done automatically (DESIGN.md §3.5).
+                if std::env::var("R2L_TUPLE_LET").is_err() {
+                    return Err(format!("let pattern `{}`", l.pat.to_token_stream()));
+                }
+                let names: Vec<String> = match &l.pat {
+                    Pat::Tuple(t) => {
+                        let mut v = vec![];
+                        for e in &t.elems {
+                            match e {
+                                Pat::Ident(i) if i.subpat.is_none() && i.mutability.is_none() => v.push(i.ident.to_string()),
+                                Pat::Wild(_) => v.push("_".into()),
+                                _ => return Err(format!("let pattern `{}`", l.pat.to_token_stream())),
+                            }
+                        }
+                        v
+                    }
+                    _ => unreachable!(),
+                };
+                let init = l.init.as_ref().ok_or("let without initialiser")?;
+                if init.diverge.is_some() {
+                    return Err("let-else".into());
+                }
+                let tmp = self.fresh("tup");
+                let is_ctrl = matches!(&*init.expr, Expr::Match(_) | Expr::If(_));
+                let tys: Vec<Ty>;
+                if is_ctrl {
+                    self.val_mode.push(Some(Ty::Unit));
+                    let mut body = vec![];
+                    let r = self.expr_stmt(&init.expr, n + 1, true, true, aliases, &mut body);
+                    let vt = self.val_mode.pop().unwrap().unwrap();
+                    r?;
+                    tys = match vt { Ty::Tuple(ts) if ts.len() == names.len() => ts, o => return Err(format!("tuple let of {:?}", o)) };
+                    let split = body.iter().position(|l| { let t = l.trim_start(); t.starts_with("match ") || t.starts_with("if ") }).unwrap_or(0);
+                    for l in &body[..split] {
+                        out.push(format!("{}{}", ind(n), l.trim_start()));
+                    }
+                    let lt = self.w.lean_ty(&Ty::Tuple(tys.iter().map(|t| self.resolve(t)).collect()))?;
+                    out.push(format!("{}let {} : {} ←", ind(n), tmp, lt));
+                    out.extend(body[split..].iter().cloned());
+                } else {
+                    let v = self.expr(&init.expr)?;
+                    tys = match self.resolve(&v.ty) { Ty::Tuple(ts) if ts.len() == names.len() => ts, o => return Err(format!("tuple let of {:?}", o)) };
+                    self.flush_pre(n, out);
+                    let lt = self.w.lean_ty(&Ty::Tuple(tys.iter().map(|t| self.resolve(t)).collect()))?;
+                    out.push(format!("{}let {} : {} := {}", ind(n), tmp, lt, v.s));
+                }
+                // projections (right-nested pairs)
+                let k = names.len();
+                for (i, (nm, ty)) in names.iter().zip(tys.iter()).enumerate() {
+                    if nm == "_" { continue; }
+                    let mut proj = tmp.clone();
+                    for _ in 0..i { proj = format!("{}.2", proj); }
+                    if i + 1 < k { proj = format!("{}.1", proj); }
+                    let lt = self.w.lean_ty(&self.resolve(ty))?;
+                    let ln = self.bind(nm, ty.clone());
+                    out.push(format!("{}let {} : {} := {}", ind(n), ln, lt, proj));
+                }
+                Ok(())
+            }
             Stmt::Local(l) => {
                 let (name, mutable, ann) = match &l.pat {
                     Pat::Ident(i) => (i.ident.to_string(), i.mutability.is_some(), None),
